@@ -125,6 +125,43 @@ static uint64_t s_convert_units(uint64_t ticks, uint64_t from, uint64_t to, uint
 C16_GEN_MIX(u64, uint64_t)
 C16_GEN_MIX(u32, uint32_t)
 
+/* the accumulator is initialised and folded in place inside one function, the fold stops at the first step that does
+ * not fit (returns 0 or 1 + the index of the refused step).  One function per operation and type, no run-time operation
+ * selector: what an optimiser may do with the loads and stores around the call depends on exactly this shape. */
+#define ACC_FOLD(NAME, T, FN, INIT)                                                                                    \
+    static __attribute__((noinline)) int NAME(const T *f, int n, T *out) {                                            \
+        *out = INIT;                                                                                                   \
+        for (int i = 0; i < n; ++i) {                                                                                  \
+            if (FN(*out, f[i], out)) return i + 1;                                                                     \
+        }                                                                                                              \
+        return 0;                                                                                                      \
+    }
+ACC_FOLD(s_prod_u64, uint64_t, aws_mul_u64_checked, 1)
+ACC_FOLD(s_sum_u64, uint64_t, aws_add_u64_checked, 0)
+ACC_FOLD(s_prod_size, size_t, aws_mul_size_checked, 1)
+ACC_FOLD(s_sum_size, size_t, aws_add_size_checked, 0)
+static __attribute__((noinline)) int s_prod_field(struct c16_accbox *box, const uint64_t *f, int n) {
+    box->value = 1;
+    box->count = 0;
+    for (int i = 0; i < n; ++i) {
+        if (aws_mul_u64_checked(box->value, f[i], &box->value)) return i + 1;
+        box->count++;
+    }
+    return 0;
+}
+static __attribute__((noinline)) int s_sum_field(struct c16_accbox *box, const uint64_t *f, int n) {
+    box->value = 0;
+    box->count = 0;
+    for (int i = 0; i < n; ++i) {
+        if (aws_add_u64_checked(box->value, f[i], &box->value)) return i + 1;
+        box->count++;
+    }
+    return 0;
+}
+static int s_acc_u64(uint64_t *acc, const uint64_t *f, int n, int op) { return op ? s_prod_u64(f, n, acc) : s_sum_u64(f, n, acc); }
+static int s_acc_size(size_t *acc, const size_t *f, int n, int op) { return op ? s_prod_size(f, n, acc) : s_sum_size(f, n, acc); }
+static int s_acc_field(struct c16_accbox *box, const uint64_t *f, int n, int op) { return op ? s_prod_field(box, f, n) : s_sum_field(box, f, n); }
+
 const struct c16_table C16_SYM = {
 #if C16_IMPL == 1
     .impl = "builtin",
@@ -143,6 +180,9 @@ const struct c16_table C16_SYM = {
     .sat32 = {aws_add_u32_saturating, aws_mul_u32_saturating, aws_sub_u32_saturating},
     .chksz = {aws_add_size_checked, aws_mul_size_checked, aws_sub_size_checked},
     .satsz = {aws_add_size_saturating, aws_mul_size_saturating, aws_sub_size_saturating},
+    .acc64 = s_acc_u64,
+    .accsz = s_acc_size,
+    .accfield = s_acc_field,
     .mix64 = s_mix_u64,
     .mix32 = s_mix_u32,
     .is_power_of_two = aws_is_power_of_two,
